@@ -17,7 +17,7 @@ type sgen struct {
 	nodefault bool
 }
 
-var namePool = []string{"a", "b", "c", "a.a", "", "é", "$schema", "id", "headers", "default", "properties", "items", "x-1", "0", "example", "examples", "type"}
+var namePool = []string{"a", "b", "c", "a.a", "", "é", "$schema", "id", "headers", "default", "properties", "items", "x-1", "0", "example", "examples", "type", "body"}
 var patPool = []string{"^a", "b$", "^[a-c]+$", "^x-", "é", "^$", "a.a", "^(id|items)$", "[0-9]"}
 var badPatPool = []string{"(", "[a-", "a{2,1}", "\\"}
 var strPool = []string{"", "a", "b", "abc", "a.a", "é", "éé", "x-1", "2020-01-01", "not-a-date", "foo@example.com", "日本語", "id", "0", "aaaa", "7f3a2b10-4c1d-4e8a-9b0e-1234567890ab"}
@@ -278,7 +278,12 @@ func (g *sgen) schema(depth int) map[string]interface{} {
 		d := map[string]interface{}{}
 		n := 1 + g.rng.Intn(3) // several entries, of both kinds: each present key is judged by its own entry
 		for i := 0; i < n; i++ {
-			if g.p(50) {
+			if g.p(20) {
+				// a schema-valued entry that asserts a format on a member of the same object: the entry's validators need
+				// everything the parent was built with (the format registry among it)
+				d[g.pick(namePool)] = map[string]interface{}{"properties": map[string]interface{}{
+					g.pick(namePool): map[string]interface{}{"type": "string", "format": g.pick([]string{"date", "email", "uuid", "date-time"})}}}
+			} else if g.p(50) {
 				d[g.pick(namePool)] = g.schema(depth - 1)
 			} else {
 				d[g.pick(namePool)] = []interface{}{g.pick(namePool)}
@@ -575,6 +580,15 @@ func (g *sgen) instanceFor(s map[string]interface{}, root map[string]interface{}
 				}
 				if _, has := m[dk]; !has {
 					continue
+				}
+				if ds, ok := deps[dk].(map[string]interface{}); ok {
+					if dps, ok := ds["properties"].(map[string]interface{}); ok {
+						for _, name := range sortedKeys(dps) {
+							if _, has := m[name]; !has && g.p(80) {
+								m[name] = g.pick(strPool)
+							}
+						}
+					}
 				}
 				if lst, ok := deps[dk].([]interface{}); ok {
 					for _, d := range lst {
